@@ -344,6 +344,13 @@ def fault_unit(run, cases, rng, per_case=3, tag="faults", max_points=40):
             job = dict(input=bytes(rng.choice(c.alphabet) for _ in range(8)), files=[b""], sched=[3], ops=deep, outs=[], wraps=[("T", 1)], pure=True,
                        bufsize=0, initsc=0, reset=dict(traces.reset_fields(c, ci + 1), cid=c.id, pure=True))
             plans.append((c, job, os.path.join(wd, "clean-%s-deep.ndjson" % c.id)))
+        if c.cfg.get("reject") and c.cfg.get("flavour", "nr") in ("nr", "r"):
+            # the REJECT state buffer has to grow when a buffer larger than any seen so far becomes current: scanning starts on a short
+            # in-memory buffer, then an action creates and pushes a file buffer - that growth is a fault point as well
+            job = dict(input=bytes(rng.choice(c.alphabet) for _ in range(8)), files=[bytes(rng.choice(c.alphabet) for _ in range(8))], sched=[3],
+                       ops=[("n", 1), ("h", 0), ("-", 0)] + [("-", 0)] * 10, outs=[("s", 0), ("-", 0)] + [("-", 0)] * 6, wraps=[("T", 1)], pure=False,
+                       bufsize=64, initsc=0, reset=dict(traces.reset_fields(c, ci + 1), cid=c.id, pure=False))
+            plans.append((c, job, os.path.join(wd, "clean-%s-growrej.ndjson" % c.id)))
     with cf.ThreadPoolExecutor(NCPU) as ex:
         list(ex.map(lambda x: traces.run_jobs(x[0], [x[1]], x[2]), plans))
     work = []; expect = {}
